@@ -33,6 +33,8 @@ def run(prog, chk):
     evaluated_classes_are_split(prog, chk)
     builders_unconditional(prog, chk)
     root_outside_collection(prog, chk)
+    hooks_add_nothing_by_default(prog, chk)
+    class_loops_run_to_the_end(prog, chk)
     unfiltered_output(prog, chk)
     from props import strops
     strops.check_for(prog, chk, "C20")  # A14.str-ops: how this property's strings are cut up is a reviewed, frozen inventory
@@ -355,6 +357,67 @@ def root_outside_collection(prog, chk):
     adders = b.call_sites(lambda c: c.path.startswith("svgdx::element::SvgElement::") and c.path.split("::")[-1] in ("add_class", "add_classes", "with_attrs_from") or c.path.startswith("svgdx::types::ClassList::") and c.path.split("::")[-1] in ("insert", "extend", "replace"))
     writes = [x for x, i, st in b.all_stmts() if st.get("lhs") and ".classes" in [str(z) for z in P(st["lhs"])[1]]]
     chk.ob(not adders and not writes, "A16.root-no-classes", "write_root_svg", b.where(), "the root start tag is written without classes", f"write_root_svg gives the root element classes ({', '.join(b.where(bb, t.get('line')) for bb, t, c in adders) or 'direct write'}): the auto-style collection only sees the events after the root, so a reserved d-... class on the root <svg> is emitted without its rule / definition")
+
+
+def hooks_add_nothing_by_default(prog, chk):
+    """rules that every theme needs live in Theme::build itself: the overridable hooks (append_early_styles,
+    append_late_styles) do nothing by default, so a theme that overrides one cannot lose a rule the others emit"""
+    n = 0
+    for b in prog.bodies.values():
+        if b.unit != "svgdx-lib" or not b.path.startswith("svgdx::themes::Theme::append_"):
+            continue
+        n += 1
+        chk.touch(b)
+        calls = [c.path.split("::")[-1] for (bb, t, c) in b.call_sites(lambda c: True)]
+        chk.ob(not calls, "A16.default-hooks-empty", b.short.split("::")[-1], b.where(), f"the default {b.short.split('::')[-1]}() emits nothing", f"the default body of the overridable hook {b.short.split('::')[-1]}() now emits styles ({sorted(set(calls))}): themes that override the hook (fine, bold, glass ...) no longer emit them, so a class that is used gets no rule under those themes")
+    chk.floor("A16.default-hooks-empty", n, 2, "overridable style hook of the Theme trait")
+
+
+def class_loops_run_to_the_end(prog, chk):
+    """every collected class of a family is examined: in the style builders, a loop over classes ends only when its
+    iterator is exhausted (no `break` / early `return` on a class that does not qualify - the next one might)"""
+    from props import C01_loops
+
+    n = 0
+    for b in sorted(prog.bodies.values(), key=lambda x: x.path):
+        if b.unit != "svgdx-lib" or not b.path.startswith("svgdx::themes::append_") or "{closure" in b.path:
+            continue
+        for h, blocks in sorted(b.loops.items()):
+            if not C01_loops.iterator_driven(b, h, blocks):
+                continue
+            n += 1
+            exits = sorted({x for x in blocks for y in b.succ[x] if y not in blocks and b.term(x)["k"] != "call" or (b.term(x)["k"] == "call" and b.term(x).get("t") is not None and b.term(x)["t"] not in blocks and x in blocks)})
+            # the legitimate exit: the switch on the iterator's next() result (or the header itself)
+            legit = set()
+            for x in blocks:
+                t = b.term(x)
+                if t["k"] == "switch":
+                    o = R.origin(b, t["op"], carriers={})
+                    if o[0] == "rv" and o[1].get("k") == "discr":
+                        src = R.origin(b, {"c": [o[1]["place"][0], list(o[1]["place"][1])]}, carriers={})
+                        if src[0] == "call" and "fn" in src[2] and Callee(src[2]["fn"]).decl_path == "std::iter::Iterator::next":
+                            legit.add(x)
+            other = [x for x in exits if x not in legit and any(y not in blocks and y in b.reachable and b.term(y)["k"] not in ("resume", "abort", "unreachable") for y in b.succ[x])]
+            # drop exits that only lead to unwinding / drops of the iterator after the legit exit
+            other = [x for x in other if not all(_only_cleanup(b, y) for y in b.succ[x] if y not in blocks)]
+            chk.ob(not other, "A16.class-loop-complete", f"{b.short}#loop{sorted(b.loops).index(h)}", b.where(h), "the loop over the collected classes ends only when all of them have been examined", f"{b.short}: a loop over collected classes can stop early ({', '.join(b.where(x) for x in other)}): the classes after the one that made it stop get no rule / definition although they are used")
+    chk.floor("A16.class-loop-complete", n, 3, "loop over classes in a style builder")
+
+
+def _only_cleanup(b, y, depth=6):
+    """block chain that only drops / resumes (unwind path)"""
+    seen = set()
+    while depth > 0 and y not in seen:
+        seen.add(y)
+        depth -= 1
+        t = b.term(y)
+        if t["k"] in ("resume", "abort", "unreachable"):
+            return True
+        if t["k"] == "drop" and not b.stmts(y):
+            y = t["t"]
+            continue
+        return False
+    return False
 
 
 def plain_guards(prog, chk):
